@@ -56,6 +56,9 @@ def check(case, ctx):
         cell_values = list(cell)
         cell = holder
         ctx.event("cell-object-reused-in-place")
+    elif S.is_int_typed(case["cell"]):
+        cell = S.cell_arg(case["cell"], case.get("cell_as_array"))
+        ctx.event("integer-typed-cell")
     B0 = np.asarray(mod.form_b_mat(cell), float)
     sc = O.maxabs(B0)
     # the strain is handed over the way a caller holds it: a list or (half of the cases) one float ndarray that is
